@@ -1,4 +1,4 @@
-CONSTANTS ResetOnGo = TRUE MaxCmds = 0 HashMinZero = TRUE
+CONSTANTS ResetOnGo = TRUE MaxCmds = 0 HashMinZero = TRUE InfiniteMayEnd = TRUE
 SPECIFICATION TraceSpec
 CONSTRAINT Progress
 POSTCONDITION TraceAccepted
